@@ -306,6 +306,19 @@ def run(ctx):
     C03.native_check(ctx, "C12.R3")
     C03.helper_range_checks(ctx, "C12.R3")      # BytesInteger(n) vs Bitwise(BitsInteger(8n)): both helper families accept exactly the two's-complement range
     ctx.floor("C12.R3", 6)
+    # the public fixed-width names are bound to the FormatField / BytesInteger instances the alias laws name (C03.R1), the bit-string helpers
+    # the integer laws rest on have their reference form (C10.R5), and the Restreamed machinery behind Bitwise <--> Restreamed(...) is a FIFO that refuses leftovers (C10.R4)
+    from ..core import Ctx as _Ctx
+    for mod, rules in ((C03, ("C03.R1",)), (C10, ("C10.R4", "C10.R5"))):
+        sub = _Ctx(mod.__name__.split(".")[-1], ctx.tier, ctx.root, model=ctx.model)
+        sub._summ = summariser(ctx)
+        mod.run(sub)
+        for e in sub.errors:
+            ctx.error("shared %s rules: %s" % (sub.prop, e))
+        for o in sub.obligations:
+            if o.rule in rules:
+                ctx.ob("C12.R6", o.where, o.ok, o.what, key=o.key, loc=o.loc, detail=o.detail)
+    ctx.floor("C12.R6", 99 + 16 + 20)
 
     # ---------------------------------------------------------------- R1
     fi = M.function("Padding")
